@@ -335,6 +335,12 @@ class Gen(object):
             if cond is None:
                 d -= 1
             return pre + [["if", a, b]], d
+        if c < 0.38:
+            # three nested loops that use all three indices
+            sink = (r.choice(self.outs)[0] + " <- stack") if self.outs else "drop"
+            inner = ["i j k", r.choice(["+ +", "* -", "max min", "xor or"]), sink]
+            return ["%d 0" % r.choice([1, 2, 3]), ["do", ["%d 1" % r.choice([2, 3]), ["do", ["2 0", ["do", inner, "loop"]],
+                                                                             r.choice(["loop", "loop"])]], "loop"]], d
         if c < 0.65:
             body, db = self.seq(n, 0, loopdepth + 1, in_def, ctrl)
             body = self.neutral(body, db)
